@@ -447,7 +447,8 @@ class Spec(object):
         if t == 'cdata':
             # xml / xhtml keep the section (an independent parser reports where it starts); html drops the
             # markers and escapes the text
-            return ([['CDATA']] if self.case['method'] != 'html' else []) + [T(n['s'])]
+            # (['BRK']: the whitespace filter normalises the text on either side of a section boundary separately)
+            return ([['CDATA']] if self.case['method'] != 'html' else [['BRK']]) + [T(n['s']), ['BRK']]
         if t == 'el':
             if 'for' in n:
                 items = self.iter_items(n['for']['e'], env)
@@ -574,12 +575,15 @@ def first_choice(toks):
 
 def same_tokens(want, got, strip):
     """token lists agree; with strip_whitespace a run of character data may come back verbatim or with
-    the documented normalisation (which elements preserve white space is not C01's concern)"""
+    the documented normalisation (which elements preserve white space is not C01's concern); the filter
+    normalises what lies between two non-text events, so a run that contains a CDATA section written by the
+    template author may also come back with its pieces normalised one by one (w[2])"""
     if len(want) != len(got):
         return False
     for w, g in zip(want, got):
         if w[0] == 'T' and g[0] == 'T':
-            if g[1] != w[1] and not (strip and g[1] == normws(w[1])):
+            if g[1] != w[1] and not (strip and g[1] == normws(w[1])) and \
+                    not (strip and len(w) > 2 and g[1] == ''.join(normws(x) for x in w[2])):
                 return False
         elif w != g:
             return False
@@ -623,12 +627,29 @@ PRESERVE = {'xml': frozenset(), 'xhtml': frozenset(['pre', 'textarea']), 'html':
 
 def coalesce(toks, strip=False, method=None):
     """merge adjacent text, drop empty text; with strip, each run as strip_whitespace documents it:
-    normalised unless it lies inside a whitespace-preserving element of the method"""
+    normalised unless it lies inside a whitespace-preserving element of the method.  A ['BRK'] token (the
+    boundary of a CDATA section the template author wrote) does not separate character data for a parser,
+    but the whitespace filter normalises the pieces on either side of it separately: a merged run that
+    contains one carries its pieces as a third component"""
     out = []
+    glue = False
     for t in toks:
+        if t[0] == 'BRK':
+            glue = bool(out) and out[-1][0] == 'T'
+            if glue and len(out[-1]) < 3:
+                out[-1] = ['T', out[-1][1], [out[-1][1]]]
+            if glue:
+                out[-1][2].append('')
+            else:
+                out.append(['T', '', ['', '']])
+            continue
         if t[0] == 'T':
             if out and out[-1][0] == 'T':
-                out[-1] = ['T', out[-1][1] + t[1]]
+                last = out[-1]
+                if len(last) > 2:
+                    out[-1] = ['T', last[1] + t[1], last[2][:-1] + [last[2][-1] + t[1]]]
+                else:
+                    out[-1] = ['T', last[1] + t[1]]
             else:
                 out.append(['T', t[1]])
         else:
@@ -638,9 +659,12 @@ def coalesce(toks, strip=False, method=None):
     res = []
     for t in out:
         if t[0] == 'T':
-            s = normws(t[1]) if (strip and depth == 0) else t[1]
-            if s:
-                res.append(['T', s])
+            if strip and depth == 0:
+                s = ''.join(normws(x) for x in t[2]) if len(t) > 2 else normws(t[1])
+                if s:
+                    res.append(['T', s])
+            elif t[1]:
+                res.append(['T', t[1]] + ([t[2]] if len(t) > 2 and len(t[2]) > 1 else []))
         else:
             if t[0] == 'S' and (depth > 0 or t[1] in pres):
                 depth += 1
